@@ -52,6 +52,14 @@ def stage_cap(run, vh, quick, pid, sim, cap, histlen):
         if not quick:
             chunk = sim
         behs = [{"id": "e2e-%s-c%d-%d" % (store, cap, i), "names": ["alice", "bob"], "steps": s} for i, s in enumerate(chunk)]
+        if cap == 0:
+            # refused handshakes on the monitor URL (a plain GET, a foreign origin) must leave nothing behind: 120 deliveries later
+            # (more than a listener's buffer holds) a real monitor has still been sent every event
+            steps = [{"k": "join", "mon": 1, "mb": "", "ver": "v2"}, {"k": "badjoin", "mb": "", "ver": "plain"}, {"k": "badjoin", "mb": "alice", "ver": "origin"},
+                     {"k": "badjoin", "mb": "", "ver": "origin"}]
+            steps += [{"k": "deliver", "to": ["alice"], "subj": "z%d" % j} for j in range(120)]
+            steps += [{"k": "drain", "mon": 1}, {"k": "deliver", "to": ["bob"], "subj": "last"}, {"k": "drain", "mon": 1}]
+            behs.append({"id": "e2e-%s-refused" % store, "names": ["alice", "bob"], "steps": steps})
         # one assembled server per process (package-level router and metrics): slices run in separate processes
         n = 6
         tfs = []
